@@ -4,6 +4,7 @@
 # only arguments and immutable tables (the same frame obligations as C16) => any two concurrent calls with their own error slots have
 # disjoint write sets and read nothing the other writes, for any number of threads and any schedule.
 from checks import frame, c16
+LEVEL = 'other'
 
 def check(run):
     run.assumptions += ['no schedule is enumerated and no race detector is run: the verdict is the frame condition + the reduction argument of DESIGN.md §2.5',
